@@ -2807,10 +2807,12 @@ def unify_bounds_maps(bounds_maps: Sequence[BoundsMap]) -> BoundsMap:
 
 
 def intersect_bounds_maps(bounds_maps: Sequence[BoundsMap]) -> BoundsMap:
-    intermediate: dict[TypeVarLike, set[tuple[Bound, ...]]] = {}
+    # The alternatives are kept in the order of the bounds maps (a dict, not a set:
+    # sets have unpredictable iteration order).
+    intermediate: dict[TypeVarLike, dict[tuple[Bound, ...], None]] = {}
     for bounds_map in bounds_maps:
         for tv, bounds in bounds_map.items():
-            intermediate.setdefault(tv, set()).add(tuple(bounds))
+            intermediate.setdefault(tv, {})[tuple(bounds)] = None
     return {
         tv: (
             [OrBound(tuple(bound_lists))]
